@@ -53,7 +53,7 @@ type connRec struct {
 	our        network.Conn // the router's Conn object, learnt at a schedule point
 	pe         *peerEnd
 	peerClosed bool
-	heldAcc    bool // held at router.accepted
+	heldAcc    bool  // held at router.accepted
 	preTest    int32 // its set-up thread is held before its first test of the closed flag
 }
 
@@ -539,31 +539,28 @@ func (e *renv) runMacro(m mac, seqNo int) error {
 			}
 			return nil
 		}
+		_ = before
 		if accGate != nil {
 			// the identity is sent at once; the callback is held before its first step
 			e.heldIn[rec.idx] = accGate
 			rec.heldAcc = true
+			atomic.StoreInt32(&rec.preTest, 1)
 			rec.pe.conn.Send(e.peers[m.A].si)
-			select {
-			case c := <-e.acceptedCh:
-				rec.our = c
-			case <-time.After(opDeadline):
-				return fmt.Errorf("inbound connection never accepted")
-			}
+		}
+		// the schedule point router.accepted tells which Conn of the router this is
+		select {
+		case c := <-e.acceptedCh:
+			e.setOur(rec, c)
+		case <-time.After(opDeadline):
+			return fmt.Errorf("inbound connection never accepted")
+		}
+		if accGate != nil {
 			if !accGate.WaitHit(opDeadline) {
 				return fmt.Errorf("inbound not held at router.accepted")
 			}
 			return nil
 		}
 		if m.Op == "incomingsilent" {
-			// no schedule point before receiveServerIdentity: wait until the callback goroutine exists
-			deadline := time.Now().Add(opDeadline)
-			for routerGoroutines(e.rptr) <= before {
-				if time.Now().After(deadline) {
-					return fmt.Errorf("silent inbound connection never accepted")
-				}
-				time.Sleep(time.Millisecond)
-			}
 			return nil
 		}
 		var gate *lib.Gate
@@ -576,7 +573,7 @@ func (e *renv) runMacro(m mac, seqNo int) error {
 		}
 		select {
 		case c := <-e.identityCh:
-			rec.our = c
+			e.setOur(rec, c)
 		case <-time.After(opDeadline):
 			return fmt.Errorf("identity not received")
 		}
@@ -590,9 +587,10 @@ func (e *renv) runMacro(m mac, seqNo int) error {
 	case "incomingrelease":
 		g := e.heldIn[m.A]
 		if g == nil {
-			return nil
+			return fmt.Errorf("release of an inbound connection that is not held")
 		}
 		delete(e.heldIn, m.A)
+		atomic.StoreInt32(&e.conns[m.A].preTest, 0)
 		g.Release()
 		if rec := e.conns[m.A]; rec.heldAcc {
 			// the callback is either refused (the connection is closed) or goes on to read the identity
@@ -609,14 +607,16 @@ func (e *renv) runMacro(m mac, seqNo int) error {
 		}
 		e.waitRegistered(e.conns[m.A])
 	case "silentclose":
-		if m.A < len(e.conns) {
-			rec := e.conns[m.A]
-			rec.pe.conn.Close()
-			waitCh(rec.pe.eof, opDeadline)
+		if m.A >= len(e.conns) || e.conns[m.A].pe == nil {
+			return fmt.Errorf("no such connection")
 		}
+		rec := e.conns[m.A]
+		rec.peerClosed = true
+		rec.pe.conn.Close()
+		waitCh(rec.pe.eof, opDeadline)
 	case "deliver", "deliverhold":
 		if m.A >= len(e.conns) {
-			return nil
+			return fmt.Errorf("no such connection")
 		}
 		rec := e.conns[m.A]
 		id := m.B
@@ -737,13 +737,10 @@ func (e *renv) runMacro(m mac, seqNo int) error {
 			waitCh(e.stops[m.A].done, opDeadline)
 		}
 	case "peerclose":
-		if m.A >= len(e.conns) {
-			return nil
+		if m.A >= len(e.conns) || e.conns[m.A].pe == nil {
+			return fmt.Errorf("no such connection")
 		}
 		rec := e.conns[m.A]
-		if rec.pe == nil {
-			return nil
-		}
 		rec.pe.conn.Close()
 		rec.peerClosed = true
 		if _, busy := e.heldMsg[m.A]; busy {
@@ -858,6 +855,8 @@ type robsJSON struct {
 	Sends      []string `json:"sends"`
 	Stops      []bool   `json:"stops_returned"`
 	Open       []bool   `json:"conn_open"`
+	OpenRet    []bool   `json:"conn_open_when_stop_returned"`
+	ExemptRet  []bool   `json:"setup_held_before_closed_test"`
 	PeerEOF    []bool   `json:"peer_saw_close"`
 	Disp       [][2]int `json:"dispatched"`
 	Late       int      `json:"late"`
@@ -911,6 +910,10 @@ func (e *renv) finish(msgConn map[int]int) robsJSON {
 		o.PeerEOF = append(o.PeerEOF, c.pe != nil && atomic.LoadInt32(&c.pe.eofSeen) == 1)
 	}
 	o.Goroutines = routerGoroutines(e.rptr)
+	e.connMu.Lock()
+	o.OpenRet = append([]bool(nil), e.openRet...)
+	o.ExemptRet = append([]bool(nil), e.exemptRet...)
+	e.connMu.Unlock()
 	e.mu.Lock()
 	var firstRet int64
 	for _, st := range e.stopRetStamp {
@@ -1015,8 +1018,8 @@ func coqRobs(o robsJSON) string {
 		}
 		return lib.List(s)
 	}
-	return fmt.Sprintf("(mkRobs %s %s %s %s %d %d %s %d %s)", lib.List(o.Sends), bools(o.Stops), bools(o.Open),
-		lib.List(disp), o.Late, o.InProgress, lib.Bool(o.Panic), o.Goroutines, lib.Bool(o.Rebind))
+	return fmt.Sprintf("(mkRobs %s %s %s %s %s %s %d %d %s %d %s)", lib.List(o.Sends), bools(o.Stops), bools(o.Open),
+		bools(o.OpenRet), bools(o.ExemptRet), lib.List(disp), o.Late, o.InProgress, lib.Bool(o.Panic), o.Goroutines, lib.Bool(o.Rebind))
 }
 
 func coqMacro(m mac) string {
